@@ -108,7 +108,8 @@ func (k msgServer) Store(goCtx context.Context, msg *types.MsgStore) (*types.Msg
 		proposal.Size_ = 1
 	}
 
-	if proposal.Timeout == 0 {
+	if proposal.Timeout <= 0 {
+		// a negative timeout would wrap around as uint64 and schedule the check in the past
 		return nil, status.Errorf(codes.InvalidArgument, "invalid arguments: timeout")
 	}
 
